@@ -328,6 +328,9 @@ func (fgen *funcGen) irCallInst(new ir.Instruction, old *ast.CallInst) error {
 	if err != nil {
 		return errors.WithStack(err)
 	}
+	if err := checkCalleeSig(callee, sig); err != nil {
+		return errors.WithStack(err)
+	}
 	inst.Callee = callee
 	// (optional) Tail.
 	if n, ok := old.Tail(); ok {
